@@ -20,10 +20,10 @@ class C04(Prop):
     level = "fault_enumeration"
     title = "A query's answer does not depend on what was evaluated before it"
     campaigns = {
-        "quick": [("faultfree", 4000, 40), ("faults", 12000, 60), ("enumerated", 600, 60),
+        "quick": [("faultfree", 4000, 40), ("faults", 12000, 60), ("enumerated", 600, 60), ("the_enumerated", 1500, 60),
                   ("known:disjunction+for_all", 320, 30), ("known:disjunction+flatten", 320, 30),
                   ("known:disjunction+nested_query", 320, 30), ("known:predicate_with_repeated_variable", 320, 30), ("known:disjunction_over_different_variables", 320, 30), ("known:disjunction_of_multi_variable_conjunction", 320, 30), ("rules", 3000, 40), ("known:rule_tree_with_alternative_or_next", 320, 40)],
-        "thorough": [("faultfree", 60000, 600), ("faults", 200000, 1500), ("enumerated", 12000, 1500),
+        "thorough": [("faultfree", 60000, 600), ("faults", 200000, 1500), ("enumerated", 12000, 1500), ("the_enumerated", 40000, 1200),
                      ("known:disjunction+for_all", 4000, 300), ("known:disjunction+flatten", 4000, 300),
                      ("known:disjunction+nested_query", 8000, 300), ("known:predicate_with_repeated_variable", 4000, 300), ("known:disjunction_over_different_variables", 20000, 300), ("known:disjunction_of_multi_variable_conjunction", 20000, 300), ("rules", 60000, 600), ("known:rule_tree_with_alternative_or_next", 6000, 400)],
     }
@@ -44,10 +44,39 @@ class C04(Prop):
                   "stub": ["user data classes, attribute getters, comparisons, predicates, constructors, domains "
                            "(simulator-owned: every call is an event and a fault point)"]}
     vacuity = {"quick": ["probe:judged", "probe:after_abandon", "fault_fired", "probe:after_fault",
-                         "probe:shared_var_other_query_first"]}
+                         "probe:shared_var_other_query_first", "probe:judged_the", "fault_fired:F3_in_the",
+                         "fault_fired:F4_intrinsic_abort", "fault_fired:F1_cancel", "fault_fired:F2_orphan",
+                         "enumerated_crash_points"]}
 
     # ------------------------------------------------------------------ generation
+    def _gen_the_enumerated(self, rng, tier):
+        """Programs for crash-point enumeration of `the` evaluations: every variable selected, small domains so that
+        'exactly one solution' is frequent, and often a top-level disjunction over one variable set (the shape whose
+        de-duplication state matters after an abort)."""
+        cfg = G.gen_config(rng, tier, all_selected=True, n_queries=1)
+        cfg["vocab"] = [v for v in cfg["vocab"] if v not in ("forall", "kw", "nest", "flat")]
+        cfg["kinds"] = ["list", "list", "gen"]
+        cfg["dups"] = False
+        cfg["depth"] = max(1, min(cfg["depth"], 2))
+        world, pool = G.gen_world_and_pool(rng, cfg)
+        q = pool["queries"][0]
+        if rng.random() < 0.6:
+            cg = G.CondGen(rng, cfg, world, list(q["sel"]), {})
+            cand = {"conds": [["or", cg.cond(list(q["sel"]), 0), cg.cond(list(q["sel"]), rng.choice([0, 0, 1]))]]}
+            if not G.query_regions(cand):
+                q["conds"] = cand["conds"]
+        for d in world["domains"]:
+            world["domains"][d] = list(dict.fromkeys(world["domains"][d]))[: rng.choice([2, 3, 4, 5])]
+        t = copy.deepcopy(q)
+        t["id"] = "t0"
+        t["quant"] = "the"
+        pool["queries"].append(t)
+        return {"world": world, "pool": pool, "ops": [], "cfg": cfg, "enumerate": q["id"], "enumerate_the": "t0",
+                "the_only": True}
+
     def gen(self, rng, tier, campaign):
+        if campaign == "the_enumerated":
+            return self._gen_the_enumerated(rng, tier)
         cfg = G.gen_config(rng, tier)
         cfg["kinds"] = ["list", "list", "tuple", "gen", "iterobj"]
         region = campaign.split(":", 1)[1] if campaign.startswith("known:") else None
@@ -77,7 +106,19 @@ class C04(Prop):
                 pool["queries"].append(t)
         the_ids = [q["id"] for q in pool["queries"] if q["quant"] == "the"]
         if campaign == "enumerated":
-            return {"world": world, "pool": pool, "ops": [], "cfg": cfg, "enumerate": rng.choice(an_ids)}
+            plan = {"world": world, "pool": pool, "ops": [], "cfg": cfg, "enumerate": rng.choice(an_ids)}
+            if rng.random() < 0.5:
+                # enumerate the crash points of the `the` variant of that query as well
+                q = [x for x in pool["queries"] if x["id"] == plan["enumerate"]][0]
+                t = copy.deepcopy(q)
+                t["id"] = "t" + q["id"][1:]
+                t["quant"] = "the"
+                pool["queries"].append(t)
+                plan["enumerate_the"] = t["id"]
+                # small domains make 'exactly one solution' frequent
+                for d in world["domains"]:
+                    world["domains"][d] = world["domains"][d][: rng.choice([1, 2, 2, 3, 4])]
+            return plan
         ops = []
         n_ops = rng.randint(1, 8 if tier == "quick" else 12)
         slots = []
@@ -108,7 +149,13 @@ class C04(Prop):
             elif r < 0.85:
                 ops.append(["fault", q, rng.choice([1, 1, 2, 2, 3, 4, 5, 6, 8, 10, 13, 17, 22, 30, 45])])
             elif r < 0.92 and the_ids:
-                ops.append(["the", rng.choice(the_ids), rng.choice([0, 1, 3])])
+                rr = rng.random()
+                if rr < 0.5:
+                    ops.append(["the", rng.choice(the_ids), rng.choice([0, 1, 3])])
+                elif rr < 0.8:
+                    ops.append(["thefault", rng.choice(the_ids), rng.choice([1, 2, 3, 4, 5, 6, 8, 10, 13, 17])])
+                else:
+                    ops.append(["probe_the", rng.choice(the_ids)])
             else:
                 ops.append(["probe", q])
         if slots:
@@ -117,6 +164,9 @@ class C04(Prop):
             ops.append(["probe", q])
             if rng.random() < 0.3:
                 ops.append(["probe", q])
+        for t in the_ids:
+            if rng.random() < 0.7:
+                ops.append(["probe_the", t])
         return {"world": world, "pool": pool, "ops": ops, "cfg": cfg}
 
     def normalise(self, plan):
@@ -159,16 +209,24 @@ class C04(Prop):
         R = r0.counters.get("rows_last_full", 0)
         N = r0.counters.get("callbacks_last_full", 0)
         histories = []
-        for k in range(0, min(R, 12) + 1):
+        for k in range(0, (min(R, 12) + 1) if not plan.get("the_only") else 0):
             histories.append([["take", q, k, "close"], ["probe", q], ["probe", q]])
             histories.append([["take", q, k, "s0"], ["drop", "s0"], ["probe", q], ["probe", q]])
             histories.append([["take", q, k, "s0"], ["park", "s0"], ["full", q], ["collect"], ["probe", q], ["probe", q]])
-        for j in range(1, min(N, 60) + 1):
+        for j in range(1, (min(N, 60) + 1) if not plan.get("the_only") else 0):
             histories.append([["fault", q, j], ["probe", q], ["probe", q]])
+        t = plan.get("enumerate_the")
+        if t:
+            rt = self._execute(dict(base, ops=[["the", t, 0]]))
+            Nt = rt.counters.get("callbacks_last_the", 0)
+            for j in range(1, min(Nt, 60) + 1):
+                histories.append([["thefault", t, j], ["probe_the", t], ["probe", q]])
+            histories.append([["the", t, 0], ["probe_the", t], ["probe", q]])
+            histories.append([["the", t, 2], ["probe", q], ["probe_the", t]])
         digests = [r0.digest]
         sigs = []
         for ops in histories:
-            r = self._execute(dict(base, ops=ops, campaign="faults"))
+            r = self.execute(dict(base, ops=ops, campaign="faults"))
             total.counters.update(r.counters)
             total.counters["enumerated_crash_points"] += 1
             total.steps += r.steps
@@ -276,7 +334,9 @@ class C04(Prop):
                             completed.add(op[1])
                         sig.append(("fault", out.end, out.exc, len(out.rows) > 0))
                     elif kind == "the":
+                        f0 = sim.faultable_total
                         r = run.the_eval(op[1])
+                        sim.counters["callbacks_last_the"] = sim.faultable_total - f0
                         if r[0] == "exc":
                             if r[1] in ("MultipleSolutionFound",):
                                 residue = True
@@ -284,6 +344,36 @@ class C04(Prop):
                             if op[2] > 0:
                                 held.append((i + op[2] + 1, r[2]))
                         sig.append(("the", r[0], r[1] if r[0] == "exc" else None))
+                    elif kind == "thefault":
+                        r = run.the_eval(op[1], fault_at=op[2])
+                        if r[0] == "exc" and r[1] == "SimFault":
+                            residue = True
+                            sim.count("fault_fired:F3_callback_raise")
+                            sim.count("fault_fired:F3_in_the")
+                        sig.append(("thefault", r[0], r[1] if r[0] == "exc" else None))
+                    elif kind == "probe_the":
+                        live = [n for n, s in run.slots.items()
+                                if s.it is not None and s.state == "open" and var_of[s.qid] & var_of[op[1]]]
+                        live += [1] * len(run.parked)
+                        aged = run.the_eval(op[1])
+                        tw = run.twin()
+                        if live or tw is None:
+                            sig.append(("probe_the", "not-judged"))
+                        else:
+                            ref = run.the_eval(op[1], pool=tw, quiet=True)
+                            if ref[0] == "exc" and ref[1] not in ("MultipleSolutionFound", "NoSolutionFound"):
+                                sim.count("probe:skipped_twin_raises")
+                                sig.append(("probe_the", "twin-raises", ref[1]))
+                            else:
+                                judged = True
+                                sim.count("probe:judged_the")
+                                if residue:
+                                    sim.count("probe:after_abandon")
+                                a = (aged[0], freeze(aged[1]))
+                                b = (ref[0], freeze(ref[1]))
+                                if a != b:
+                                    sim.violate("the-outcome", {"query": op[1], "aged": repr(a), "twin": repr(b)})
+                                sig.append(("probe_the", aged[0], aged[1] if aged[0] == "exc" else None))
                     elif kind == "probe":
                         qid = op[1]
                         live = [n for n, s in run.slots.items()
